@@ -65,6 +65,7 @@ impl<'a> GeneratorState<'a> {
             protected: false,
             carry_propagation_error: false,
             saved_y: false,
+            flags_function: None,
             sub_output: None,
         }
     }
